@@ -92,14 +92,20 @@ impl Check for Refs {
             match nav::references(&w, p) {
                 Err((sig, what)) => r.fail(format!("{}|references", sig), what, detail(json!(null))),
                 Ok(locs) => {
+                    let raw = serde_json::to_value(&locs).unwrap_or(Value::Null);
                     let locs = locs.unwrap_or_default();
                     let got: Vec<(usize, usize)> = locs.iter().map(|l| { let b = w.bytes_of(&l.range); (b.start, b.end) }).collect();
                     let got_set: BTreeSet<(usize, usize)> = got.iter().cloned().collect();
                     if got_set != want_others || got.len() != got_set.len() || locs.iter().any(|l| l.uri != w.uri) {
                         let missing: Vec<_> = want_others.difference(&got_set).map(|(a, b)| (*a, text[*a..*b].to_string())).collect();
                         let extra: Vec<_> = got_set.difference(&want_others).map(|(a, b)| (*a, text.get(*a..*b).unwrap_or("?").to_string())).collect();
+                        let mut sig = sign("wrong-references".into());
+                        if ambiguous {
+                            let m = "textDocument/references";
+                            sig = crate::pinned_lsp::triage(sig, crate::pinned_lsp::baseline_agrees_on(m, &w.uri, &text, crate::pinned_lsp::position_params(m, &w.uri, p.line, p.character), &raw, crate::pinned_lsp::ranges_of));
+                        }
                         r.fail(
-                            sign("wrong-references".into()),
+                            sig,
                             format!("find-references on `{}` ({:?}): missing {:?}, not belonging {:?}, {} duplicates", w.tok(i).text, w.tok(i).role, missing, extra, got.len() - got_set.len()),
                             detail(json!(null)),
                         );
@@ -141,6 +147,7 @@ impl Check for Refs {
                 r.excluded.push("rename-of-main-procedure".into());
                 continue;
             }
+            let raw_rename = serde_json::to_value(&ren).unwrap_or(Value::Null);
             let Some(we) = ren else {
                 r.fail(sign("rename-not-offered".into()), format!("rename is not offered on `{}` ({:?})", w.tok(i).text, w.tok(i).role), detail(json!(null)));
                 continue;
@@ -156,8 +163,13 @@ impl Check for Refs {
             if got_set != want_all || got.len() != got_set.len() || edits.iter().any(|e| e.new_text != fresh) {
                 let missing: Vec<_> = want_all.difference(&got_set).map(|(a, b)| (*a, text[*a..*b].to_string())).collect();
                 let extra: Vec<_> = got_set.difference(&want_all).map(|(a, b)| (*a, text.get(*a..*b).unwrap_or("?").to_string())).collect();
+                let mut sig = sign("wrong-rename-edits".into());
+                if ambiguous {
+                    let params = json!({ "textDocument": { "uri": w.uri.as_str() }, "position": { "line": p.line, "character": p.character }, "newName": fresh });
+                    sig = crate::pinned_lsp::triage(sig, crate::pinned_lsp::baseline_agrees_on("textDocument/rename", &w.uri, &text, params, &raw_rename, crate::pinned_lsp::ranges_of));
+                }
                 r.fail(
-                    sign("wrong-rename-edits".into()),
+                    sig,
                     format!("rename of `{}` ({:?}): occurrences not edited {:?}, edits elsewhere {:?}, {} duplicates", w.tok(i).text, w.tok(i).role, missing, extra, got.len() - got_set.len()),
                     detail(json!(null)),
                 );
